@@ -243,7 +243,20 @@ macro_rules! impl_subject {
                         let a: Array2<F> = owned_layout(x, layout);
                         let mut y: $out<E> = m.default_target(&a);
                         m.predict_inplace(&a, &mut y);
-                        Pred { rows: $rows(&y, conv), records_ok: true }
+                        let first = $rows(&y, conv);
+                        // the target buffer is an output: predicting into a buffer that already
+                        // holds values (here: the previous predictions, rotated by one row) must
+                        // overwrite them
+                        if y.len() > 1 {
+                            let n0 = y.len_of(Axis(0));
+                            let rotated = y.select(Axis(0), &(0..n0).map(|i| (i + 1) % n0).collect::<Vec<_>>());
+                            y.assign(&rotated);
+                        }
+                        m.predict_inplace(&a, &mut y);
+                        let second = $rows(&y, conv);
+                        let same = first.len() == second.len()
+                            && first.iter().zip(second.iter()).all(|(r, q)| r.iter().zip(q.iter()).all(|(u, v)| u.to_bits() == v.to_bits()));
+                        Pred { rows: if same { first } else { second }, records_ok: same }
                     }
                 })
             }
